@@ -10,7 +10,7 @@ from checklib import core
 BINS = ["reserve"]
 PID = "C13"
 MAX256 = (1 << 256) - 1
-KINDS = ["planner"]
+KINDS = ["planner", "journal", "e2e"]
 
 
 def setup():
@@ -72,10 +72,208 @@ def planner_stats(d):
     return dict(distinct_nontrivial=len(nontrivial), with_undefined_cost=malformed, with_saturated_answer=saturated, empty_blocks=empty)
 
 
-PREDICATES = {"planner": planner_predicate}
-STATS = {"planner": planner_stats}
+# ------------------------------------------------------------------------------- shared parsing
+
+class Toks:
+    def __init__(self, line):
+        self.t = line.split(); self.p = 0
+    def next(self):
+        v = self.t[self.p]; self.p += 1; return v
+    def hex(self):
+        return int(self.next(), 16)
+    def dec(self):
+        return int(self.next())
+    def tx(self):
+        caller = self.next(); kind = self.next()
+        value, gl, gp, ty, nb, bf = (self.hex() for _ in range(6))
+        return dict(caller=caller, kind=kind, value=value, gas_limit=gl, gas_price=gp, type=ty, blobs=nb, blobfee=bf)
+    def state(self):
+        return {a: (b, d == "1") for a, b, d in ((self.next(), self.hex(), self.next()) for _ in range(self.dec()))}
+    def entries(self):
+        out = []
+        for _ in range(self.dec()):
+            k = self.next()
+            if k == "T":
+                out.append(("T", self.next(), self.next(), self.hex()))
+            elif k == "D":
+                out.append(("D", self.next(), self.next(), self.hex()))
+            elif k == "C":
+                out.append(("C", self.next(), self.hex()))
+            else:
+                out.append(("O",))
+        return out
+
+
+def py_cost(tx):
+    """max_balance_spending with U256::MAX when undefined (property text, Python integers)."""
+    g = tx["gas_limit"] * tx["gas_price"]
+    if g >= 1 << 128:
+        return MAX256
+    m = g + tx["value"]
+    if tx["type"] == 3:
+        m += min(((131072 * tx["blobs"]) % (1 << 64)) * tx["blobfee"], (1 << 128) - 1)
+    return m if m <= MAX256 else MAX256
+
+
+def py_candidates(entries, cp, tx, state):
+    """Property text: first surviving debit of every delegated source, the transaction's own
+    top-level value transfer excluded."""
+    root_pending = tx["value"] != 0
+    first = {}
+    for i in range(cp, len(entries)):
+        e = entries[i]
+        if root_pending and e[0] == "T" and e[1] == tx["caller"] and e[3] == tx["value"] and (tx["kind"] == "C" or e[2] == tx["kind"][1:]):
+            root_pending = False
+            continue
+        src = None
+        if e[0] == "T" and e[1] != e[2] and e[3] != 0:
+            src = e[1]
+        elif e[0] == "D" and e[3] != 0:
+            src = e[1]
+        if src is not None and state.get(src, (0, False))[1]:
+            first.setdefault(src, i)
+    return first
+
+
+def py_walk(entries, i, a, final):
+    """Exact reverse walk (no saturation) - valid on well-formed journals."""
+    bal = final
+    for e in reversed(entries[i:]):
+        if e[0] == "T":
+            if e[1] == a and e[2] != a:
+                bal += e[3]
+            elif e[2] == a and e[1] != a:
+                bal -= e[3]
+        elif e[0] == "D":
+            if e[1] == a:
+                bal += e[3]
+            elif e[2] == a:
+                bal -= e[3]
+        elif e[0] == "C" and e[1] == a:
+            bal = e[2]
+    return bal
+
+
+# ------------------------------------------------------------------------------- journal
+
+def parse_journal(case):
+    t = Toks(case); t.next()
+    cp = t.hex(); tx = t.tx(); state = t.state(); entries = t.entries()
+    points = [(t.hex(), t.next(), t.hex()) for _ in range(t.dec())]
+    snaps = {}
+    for _ in range(t.dec()):
+        k, a, b = t.hex(), t.next(), t.hex()
+        snaps[(k, a)] = b
+    return cp, tx, state, entries, points, snaps
+
+
+def journal_predicate(case, res):
+    """Model-independent: (1) balance_before_entry must return the balance the account really had
+    when the journal had that length (recorded while driving revm's journal); (2) the reported
+    candidates must be the delegated sources of surviving non-root debits with that balance."""
+    cp, tx, state, entries, points, snaps = parse_journal(case)
+    if not snaps:
+        return None        # malformed stream: no reference other than the model
+    d_part, bb_part = res.split(" bb:")
+    bb = [int(v, 16) for v in bb_part.split(",") if v]
+    for (k, a, fin), got in zip(points, bb):
+        if (k, a) in snaps and state.get(a, (None,))[0] == fin and got != snaps[(k, a)]:
+            return "balance_before_entry(index %d, account %s) returned %x, the account held %x at that point" % (k, a, got, snaps[(k, a)])
+    want = {}
+    for a, i in py_candidates(entries, cp, tx, state).items():
+        before = snaps.get((i, a))
+        if before is None:
+            return None
+        want[a] = (before, state[a][0])
+    got = {}
+    for item in d_part[2:].split(","):
+        if item:
+            a, b, f = item.split(":")
+            got[a] = (int(b, 16), int(f, 16))
+    if got != want:
+        return "delegated_debits_since returned %s, the surviving delegated debits (first per account, root value transfer excluded; balance actually held before it, final balance) are %s" % (
+            {k: tuple(hex(x) for x in v) for k, v in got.items()}, {k: tuple(hex(x) for x in v) for k, v in want.items()})
+    return None
+
+
+def journal_stats(d):
+    nontrivial, root, destroyed, malformed, multi = set(), 0, 0, 0, 0
+    for case, res in zip(d["cases"], d["impl"]):
+        n = res.split(" bb:")[0].count(":") // 3
+        if n:
+            nontrivial.add(case)
+        multi += n > 1
+        malformed += not parse_journal(case)[5]
+        destroyed += " D " in case
+    return dict(distinct_nontrivial=len(nontrivial), with_several_candidates=multi, with_account_destroyed=destroyed, malformed_stream=malformed)
+
+
+# ------------------------------------------------------------------------------- end-to-end
+
+def parse_e2e(case):
+    t = Toks(case); t.next()
+    txs = [t.tx() for _ in range(t.dec())]
+    items = []
+    for _ in range(t.dec()):
+        k = t.next()
+        if k == "K":
+            items.append(("K", t.hex(), t.next()))
+        else:
+            txid = t.hex(); state = t.state(); entries = t.entries()
+            items.append(("X", txid, state, entries, t.next(), t.next()))
+    return txs, items
+
+
+def e2e_predicate(case, res):
+    """Model-independent: the harness' own cross-checks (parallel = sequential, policy off = stock
+    revm, final state = in-order oracle, no lack-of-funds skip of a fundable account) and the
+    property text evaluated in Python on the oracle's per-transaction movements and balances."""
+    for tok in res.split()[2:]:
+        name, val = tok.split(":", 1)
+        if val != "1":
+            return {"par=seq": "parallel and sequential execution disagree with the reserve policy on",
+                    "off=stock": "with the policy off the block result differs from in-order stock revm",
+                    "final": "final state with the policy on differs from the in-order oracle (charged revert must keep fee, nonce bump and authorisations and nothing else)",
+                    "fund": "an account that could pay for all its block transactions at block start was skipped for lack of funds"}[name] + " [" + val[2:] + "]"
+    txs, items = parse_e2e(case)
+    actual = [x for x in res.split()[0][2:].split(",") if x]
+    for pos, it in enumerate(items):
+        if it[0] == "K":
+            want = it[2]
+        else:
+            _, txid, state, entries, off, viol = it
+            tx = txs[txid]
+            violated = False
+            for a, i in py_candidates(entries, 0, tx, state).items():
+                required = min(MAX256, sum(py_cost(x) for j, x in enumerate(txs) if j > txid and x["caller"] == a))
+                final = state[a][0]
+                if required != 0 and final < min(py_walk(entries, i, a, final), required):
+                    violated = True
+            want = viol if violated else off
+        got = actual[pos] if pos < len(actual) else "missing"
+        if got != want:
+            return "tx %d: grevm returned %s; the property requires %s (policy-off outcome %s, charged top-level revert %s)" % (
+                pos, got, want, it[4] if it[0] == "X" else it[2], it[5] if it[0] == "X" else "-")
+    return None
+
+
+def e2e_stats(d):
+    nontrivial, viol, skips, txs = set(), 0, 0, 0
+    for case, res in zip(d["cases"], d["impl"]):
+        bits = res.split(" v:")[1].split()[0]
+        viol += bits.count("1"); txs += len(bits)
+        skips += res.count("KLackOfFund")
+        if "1" in bits:
+            nontrivial.add(case)
+    return dict(distinct_nontrivial=len(nontrivial), transactions=txs, charged_reverts=viol, lack_of_funds_skips=skips)
+
+
+PREDICATES = {"planner": planner_predicate, "journal": journal_predicate, "e2e": e2e_predicate}
+STATS = {"planner": planner_stats, "journal": journal_stats, "e2e": e2e_stats}
 WHAT = {
     "planner": "required_after is not the saturating sum of the account's later maximum costs",
+    "journal": "the journal scan / reverse walk does not report the surviving delegated debits with the balance before the first one",
+    "e2e": "a delegated-account block is not executed as the property requires (charged top-level revert exactly when the reserve is violated, otherwise identical to the policy being off)",
 }
 
 
@@ -87,7 +285,7 @@ def run(ctx):
     if not ok:
         raise RuntimeError("cargo build failed:\n" + out[-3000:])
     model = core.ocaml_build("reserve", "reserve", "reserve_drv")
-    counts = dict(planner=3000 if ctx.quick else 90000)
+    counts = dict(planner=3000 if ctx.quick else 90000, journal=4000 if ctx.quick else 120000, e2e=700 if ctx.quick else 14000)
     diffs = {k: differential(ctx, k, bins["reserve"], model, counts[k]) for k in KINDS}
     corr_ok = all(d["first_diff"] is None for d in diffs.values())
 
@@ -118,7 +316,15 @@ def run(ctx):
         distinct_nontrivial=sum(s["distinct_nontrivial"] for s in stats.values()),
         rule="planner: seeded random blocks with shared senders (every third case from the boundary stream: u64/u128/U256 limits, "
              "overflowing gas_limit*price, blob fees) and random query sequences on the real ReservePlanner, plus a second shared "
-             "instance queried in a permuted order from two threads, vs the extracted Coq model; non-trivial = distinct case with a non-zero answer",
+             "instance queried in a permuted order from two threads, vs the extracted Coq model; non-trivial = distinct case with a non-zero answer. "
+             "journal: revm's real Journal driven through its public API (transfers incl. self / zero / out-of-funds, selfdestruct before and after Cancun, "
+             "balance_incr / set_balance / decr_balance, nested checkpoints committed or reverted, CREATE endowments, root transfer, reimbursement), then the "
+             "production delegated_debits_since and balance_before_entry vs the extracted model; every fourth case pushes arbitrary (ill-formed, near-U256::MAX) entries "
+             "directly; non-trivial = distinct case with at least one reported candidate. "
+             "e2e: seeded EIP-7702 blocks (pre-delegated and on-the-fly delegated accounts, sponsors, own later transactions at any position, exact / one-short / "
+             "ample / insufficient balances, inner reverts, bounced credits, CREATE endowment, SELFDESTRUCT, create transactions, credits before debits) through the "
+             "public Scheduler with the policy on (sequential and 4-way parallel) and off; per transaction the extracted rule applied to the in-order stock-revm "
+             "oracle's movements and balances decides charged-revert vs identical-to-off; non-trivial = distinct block with at least one charged revert",
         distribution=stats,
         samples=[dict(kind=k, case=d["cases"][i][:400], impl=d["impl"][i][:400], model=d["model"][i][:400])
                  for k, d in diffs.items() for i in range(min(2, len(d["cases"])))],
@@ -126,4 +332,7 @@ def run(ctx):
     return ctx.finish("proof", cov, [
         "theorems are about the Gallina models coq/Reserve/*.v; the tie to src/delegated_safety/{reserve,handler}.rs is the differential above",
         "slice::partition_point is modelled by its documented contract (the slices are proved strictly increasing)",
+        "that revm journals every balance movement as BalanceTransfer / AccountDestroyed / BalanceChange is assumed by the journal model and tested by comparing the reverse walk with the balances actually held",
+        "the handler lifecycle theorems treat revm's stages (validation, execution, refund, reimbursement, beneficiary) as opaque functions; the e2e differential ties them to real executions",
+        "committed results of the parallel path equal in-order execution (C01/C02); here only tested (parallel = sequential on every e2e block)",
     ])
